@@ -14,9 +14,9 @@ LEGS = {
     # unique table driven directly against the set model, 2..16 initial slots, growth every few inserts
     "miri_table": {"tool": "miri", "prop": "C02", "cases": [("table", i) for i in range(12)]},
     # unsafe get_or_insert of the BDD builder across growth + canonicity/membership probes
-    "miri_bdd": {"tool": "miri", "prop": "C02", "cases": [("rand", i) for i in range(10)]},
+    "miri_bdd": {"tool": "miri", "prop": "C02", "cases": [("rand", i) for i in range(10)] + [("weak_hash", i) for i in range(4)]},
     # both SDD tables (BinarySDD / SddOr with owned Vec) across growth
-    "miri_sdd": {"tool": "miri", "prop": "C04", "cases": [("rand", i) for i in range(10)]},
+    "miri_sdd": {"tool": "miri", "prop": "C04", "cases": [("rand", i) for i in range(10)] + [("weak_hash", i) for i in range(4)]},
     # RefCell<Option<Box<dyn Any>>> scratch traffic of interleaved queries
     "miri_queries": {"tool": "miri", "prop": "C10",
                      "cases": [("bdd", i) for i in range(4)] + [("sdd", i) for i in range(4)] + [("ddnnf", i) for i in range(4)]},
@@ -25,7 +25,7 @@ LEGS = {
     # hash-identified builders: get_or_insert_by_hash through the raw table pointer, lookups by hash and by negated hash
     "miri_semantic": {"tool": "miri", "prop": "C11", "cases": [("semantic_sdd", i) for i in range(6)] + [("semantic_ddnnf", i) for i in range(4)]},
     # top-down compilation: unsafe get_or_insert of both d-DNNF node stores, several CNFs per builder
-    "miri_topdown": {"tool": "miri", "prop": "C06", "cases": [("rand", i) for i in range(4)] + [("reuse", i) for i in range(4)]},
+    "miri_topdown": {"tool": "miri", "prop": "C06", "cases": [("rand", i) for i in range(4)] + [("reuse", i) for i in range(4)] + [("weak_hash", i) for i in range(3)]},
     # the whole C11 quick workload incl. two 524 286-node by-hash builders (table growth at real size)
     "asan_semantic": {"tool": "asan", "prop": "C11", "tier": "quick"},
     "asan_bdd": {"tool": "asan", "prop": "C02", "tier": "thorough"},
